@@ -15,8 +15,10 @@ ASSUMED = {
     'C04': ['Python lists as sequences; complex scalars T[0,0] are opaque values at the predicate level'],
     'C05': ['minimum_vertex_cover returns a vertex cover of minimum size (K_cover; weak duality proved in Lean, validity/maximality bounded in C18)'],
     'C06': [], 'C07': [],
-    'C08': ['K_lanczos / eigh_tridiagonal / expm contracts are not used deductively; callable arguments of expm_krylov are assumed not to modify their arguments (engine F)'],
-    'C09': [], 'C10': ['callable arguments of eigh_krylov are assumed not to modify their arguments (engine F)'],
+    'C08': ['callable arguments of expm_krylov are assumed not to modify their arguments (engine F)',
+            '_local_hamiltonian_step / _local_bond_step are verified against the contract of expm_krylov proved in C15 (norm of the result = norm of the input for hermitian=True and purely imaginary dt), itself modular over the contracts of lanczos_iteration (C14) and the assumed contracts of eigh_tridiagonal / np.exp; exact arithmetic'],
+    'C09': [], 'C10': ['callable arguments of eigh_krylov are assumed not to modify their arguments (engine F)',
+                       '_minimize_local_energy is verified against the contract of eigh_krylov proved in C15 (orthonormal Ritz vectors, Rayleigh quotients); the map handed to eigh_krylov is linear and Hermitian (hypothesis; Hermiticity of the effective local operator is a bounded clause of C04)'],
     'C11': [LIB + 'np.intersect1d (strictly increasing common values, complete), np.argsort (stable sorting permutation with inverse), np.where(mask)[0] '
             '(increasing, complete), np.arange, np.linalg.qr(B) = (Qs, Rs): shapes (p, k), (k, r) with k = min(p, r), Qs Rs = B, Qs^H Qs = I', 'is_qsparse(A, [q0, -q1]) (leading assert) is the precondition: A[i,j] != 0 => q0[i] == q1[j]',
             'entry values: the range-sum rules (empty, split, vanish, congruence, single term, permutation) are proved in Lean (vt/lemmas/Sums.lean); that the generator applies them as stated there (uninterpreted Dot/Gram symbols in z3 vs `VT.dot` in Lean) is by reading, not machine-checked; ring elements are modelled as reals with an uninterpreted conjugation'],
